@@ -64,7 +64,7 @@ CHECKS = {
               "(window of 4 heights; any delivery that is not the stream's next block - duplicate, stale, skip-ahead - is a deviation, at most "
               "2 (thorough 3) per history), soft reader syncs to the executor's height (drop_obsolete), executor takes next soft block (only "
               "while the real is_spread_too_large() is false), executor takes next firm block} for commit levels SoftAndFirm / SoftOnly / "
-              "FirmOnly, look-ahead 1, 2 (thorough 16) and several session start offsets. Each state is the history replayed on a fresh real "
+              "FirmOnly, look-ahead 1, 2 (thorough 16), several session start offsets, and sessions that start (conductor restart) with the soft commitment 2 (thorough 1..3) blocks ahead of the firm one. Each state is the history replayed on a fresh real "
               "executor::Initialized (two real BlockCaches, execute_soft / execute_firm, real gRPC Client). Oracle on the fake rollup's RPC "
               "log: exactly one ExecuteBlock per sequencer height, strictly in order, each on the block of the previous height; commitments "
               "monotone, firm <= soft, each naming the block executed at that number; in-order streams never stop the executor."),
